@@ -609,6 +609,63 @@ example : Causal exRows exRows [] [exK, exS] := by
   · intro r hr; simp only [List.mem_cons, List.not_mem_nil, or_false] at hr; rcases hr with rfl | rfl <;> decide
   · intro r hr; simp only [List.mem_cons, List.not_mem_nil, or_false] at hr; rcases hr with rfl | rfl <;> intro h <;> simp [exK, exS] at h
 
+/-! ### what the CUDA-event tables stand for -/
+
+/-- **What an event stands for**: for a `cudaEventRecord` call whose stream is known, the model's
+`index_previous_launch` is the launch call that is *last* in start order among the linked launches
+that put work on that stream of that device no later than the record call; and it is -1 exactly
+when there is no such launch. -/
+theorem C08_prevLaunch_spec (rows : List Row) (ws : Waits) (rec : Row) (s gpu : Int)
+    (hs : recordStream rows ws rec.corr = some (s, gpu)) :
+    let P := fun (l : Launch) => l.stream == s && l.gpu == gpu && decide (l.call.ts ≤ rec.ts)
+    (∀ l ∈ launches rows, P l = false) ∧ prevLaunch rows ws rec = -1 ∨
+    ∃ (k : Nat) (l : Launch), (launches rows)[k]? = some l ∧ P l = true ∧ prevLaunch rows ws rec = l.call.idx ∧
+      ∀ j : Nat, k < j → ∀ l', (launches rows)[j]? = some l' → P l' = false := by
+  intro P
+  unfold prevLaunch
+  simp only [hs]
+  cases hk : lastIdx (fun (l : Launch) => l.stream == s && l.gpu == gpu && decide (l.call.ts ≤ rec.ts)) (launches rows) 0 none with
+  | none =>
+    left
+    exact ⟨lastIdx_none _ _ 0 hk, rfl⟩
+  | some k =>
+    right
+    rcases lastIdx_spec _ _ 0 none k hk with ⟨h, _⟩ | ⟨_, x, hx, hpx, hlast⟩
+    · cases h
+    · refine ⟨k, x, by simpa using hx, hpx, ?_, ?_⟩
+      · simp only [Nat.sub_zero] at hx
+        simp [hx]
+      · intro j hj l' hl'
+        exact hlast j (by omega) l' hl'
+
+/-- **Which kernel waits**: for a linked `cudaStreamWaitEvent` call the model's `index_next_launch` is
+the *first* launch call in start order, of the same host thread, that puts work on the waiting
+stream after the wait call started; -1 when there is none. -/
+theorem C08_nextLaunch_spec (rows : List Row) (callIdx : Int) (c k : Row)
+    (hc : rows.find? (fun c => c.idx == callIdx && c.name == "cudaStreamWaitEvent" && decide (c.link > 0)) = some c)
+    (hk : rows.find? (fun k => k.idx == c.link && k.stream != -1 && decide (k.link > 0)) = some k) :
+    let Q := fun (l : Launch) => l.call.pid == c.pid && l.call.tid == c.tid && l.stream == k.stream && decide (l.call.ts > c.ts)
+    (nextLaunch rows callIdx = some (-1) ∧ ∀ l ∈ launches rows, Q l = false) ∨
+    ∃ l pre post, launches rows = pre ++ l :: post ∧ Q l = true ∧ nextLaunch rows callIdx = some l.call.idx ∧
+      ∀ l' ∈ pre, Q l' = false := by
+  intro Q
+  unfold nextLaunch
+  simp only [hc, hk]
+  cases hf : (launches rows).find? Q with
+  | none =>
+    left
+    have := List.find?_eq_none.mp hf
+    refine ⟨by simp, ?_⟩
+    intro l hl
+    simpa using this l hl
+  | some l =>
+    right
+    obtain ⟨hq, pre, post, hsplit, hpre⟩ := List.find?_eq_some_iff_append.mp hf
+    refine ⟨l, pre, post, hsplit, hq, by simp, ?_⟩
+    intro l' hl'
+    simpa using hpre l' hl'
+
+
 /-- The sorted endpoint tokens of C03 are non-decreasing in time. -/
 theorem sortToks_time_sorted (po : Int → Bool) {es : List C03.Ev} (wf : C03.WF es) :
     (C03.sortToks po (C03.tokens es)).Pairwise fun a b => a.time ≤ b.time := by
